@@ -97,6 +97,24 @@ def fn_body(text, name):
     raise Unavailable(f"cannot find fn {name}")
 
 
+def sources(repo):
+    """(relative path, text without comments) of every non-test source file"""
+    out = []
+    root = os.path.join(repo, "src")
+    for d, _, fs in sorted(os.walk(root)):
+        for f in sorted(fs):
+            rel = os.path.relpath(os.path.join(d, f), root)
+            if not f.endswith(".rs") or f == "tests.rs" or rel.startswith("test_utils"):
+                continue
+            out.append((rel, strip_comments(open(os.path.join(d, f)).read())))
+    return out
+
+
+def files_with(srcs, pattern):
+    """the files that contain `pattern` (the code is found where it lives now, not where it used to be)"""
+    return [(rel, txt) for rel, txt in srcs if re.search(pattern, txt)]
+
+
 # ------------------------------------------------------------------------------------------ consts
 
 def byte_literal(expr, text):
@@ -170,16 +188,16 @@ def gen_consts(repo):
     names = ["SHARED_SECRET_LENGTH", "SIGNING_KEY_LENGTH", "SIGNATURE_LENGTH", "TAG_LENGTH", "MIN_TRACING_LEVEL"]
     kem_names = ["MlKem512", "MlKem768"]
     try:
-        core = src("core/mod.rs")
+        srcs = sources(repo)
+        everything = "\n".join(t for _, t in srcs)
         consts = {}
         for name in names:
-            consts[name] = int(find(r"const\s+" + name + r"\s*:\s*usize\s*=\s*(\d+)\s*;", core, name).group(1))
-        mlkem = src("core/kem/mlkem.rs")
-        kems = re.findall(r"make_mlkem!\(\s*(\w+),\s*\w+,\s*(\d+),\s*\w+,\s*(\d+),\s*\w+,\s*(\d+)\s*\)", mlkem)
+            consts[name] = int(find(r"const\s+" + name + r"\s*:\s*usize\s*=\s*(\d+)\s*;", everything, name).group(1))
+        kems = re.findall(r"make_mlkem!\(\s*(\w+),\s*\w+,\s*(\d+),\s*\w+,\s*(\d+),\s*\w+,\s*(\d+)\s*\)", everything)
         if len(kems) < 2:
             raise Unavailable("cannot extract make_mlkem! sizes")
-        p256 = src("core/nike/p256.rs")
-        p256_lens = re.findall(r"fn length\(&self\) -> usize \{\s*(\d+)\s*\}", p256)
+        p256 = "\n".join(t for _, t in files_with(srcs, r"\bP256\w*|p256::"))
+        p256_lens = re.findall(r"fn length\(&self\) -> usize \{\s*(\d+)\s*\}", p256)[:2]
         if len(p256_lens) != 2:
             raise Unavailable("cannot extract P-256 sizes")
         out.append("def constsAvailable : Bool := true")
@@ -209,17 +227,19 @@ def gen_consts(repo):
         return "[" + ", ".join(str(b) for b in bs) + "]"
 
     try:
-        prim = src("core/primitives.rs")
-        api = src("api.rs")
-        hdr = src("encrypted_header.rs")
-        sig = labels_in(prim, r"Kmac::v256\s*\(", 1)
+        srcs = sources(repo)
+        everything = "\n".join(t for _, t in srcs)
+        # the PKE label lives with the `PkeAc` implementation, the header labels with `EncryptedHeader`
+        api = "\n".join(t for _, t in files_with(srcs, r"impl\s+PkeAc\b|PkeAc\s*<[^{;]*>\s*for\s+Covercrypt"))
+        hdr = "\n".join(t for _, t in files_with(srcs, r"impl\s+EncryptedHeader\b"))
+        sig = labels_in(everything, r"Kmac::v256\s*\(", 1)
         if len(sig) < 1 or any(s != sig[0] for s in sig):
             raise Unavailable("cannot extract the KMAC label")
-        ae = labels_in(api, r"SymmetricKey::derive\s*\(", 1)
+        ae = labels_in(api + "\n" + everything, r"SymmetricKey::derive\s*\(", 1)[:max(1, len(re.findall(r"SymmetricKey::derive\s*\(", api)))]
         if len(ae) < 1 or any(s != ae[0] for s in ae):
             raise Unavailable("cannot extract the PKE key-derivation label (all uses must agree)")
-        hk = labels_in(hdr, r"SymmetricKey::derive\s*\(", 1)
-        hs = labels_in(hdr, r"kdf256!\s*\(", 2)
+        hk = labels_in(hdr + "\n" + everything, r"SymmetricKey::derive\s*\(", 1)[:max(1, len(re.findall(r"SymmetricKey::derive\s*\(", hdr)))]
+        hs = labels_in(hdr + "\n" + everything, r"kdf256!\s*\(", 2)[:max(1, len(re.findall(r"kdf256!\s*\(", hdr)))]
         if len(hk) < 1 or len(hs) < 1 or any(s != hk[0] for s in hk) or any(s != hs[0] for s in hs):
             raise Unavailable("cannot extract the header labels (all uses must agree)")
         out.append("def labelsAvailable : Bool := true")
@@ -242,16 +262,13 @@ def gen_consts(repo):
 def gen_allocs(repo):
     """every pre-allocation and every raw length-prefixed read in the deserialisation code (functions
     named `read…`): structural, independent of variable names"""
-    files = ["core/serialization/mod.rs", "abe_policy/access_structure.rs", "abe_policy/dimension.rs",
-             "abe_policy/rights.rs", "encrypted_header.rs", "data_struct/dictionary.rs"]
     head = ["/-! GENERATED by tools/gen_tables.py from /repo/src on every check run. Do not edit.",
             "Pre-allocations (`with_capacity`) and raw `read_vec` calls inside the deserialisers. -/",
             "namespace CC.Generated"]
     try:
         caps, raw = [], []
         nread = 0
-        for f in files:
-            txt = strip_comments(open(os.path.join(repo, "src", f)).read())
+        for f, txt in sources(repo):
             for name, _, body in functions(txt):
                 if not name.startswith("read"):
                     continue
@@ -261,8 +278,11 @@ def gen_allocs(repo):
                     arg = re.sub(r"\s+", "", ",".join(args))
                     bounded = arg.startswith("bounded_capacity(") or arg.startswith("crate::bytes::bounded_capacity(") or re.fullmatch(r"\d+", arg) is not None
                     caps.append((f, arg.replace('"', "'"), bounded))
+                # a raw `read_vec` is fine only in a function that first looks at the number of remaining bytes
+                guarded = re.search(r"value\s*\(\s*\)\s*\.\s*len\s*\(\s*\)", body) is not None
                 for c in re.finditer(r"\bde\s*\.\s*read_vec\s*\(\s*\)", body):
-                    raw.append(f)
+                    if not guarded:
+                        raw.append(f)
         if nread < 8:
             raise Unavailable("too few deserialisers found")
         out = head + ["def allocsAvailable : Bool := true", "def capacities : List (String × String × Bool) := ["]
@@ -390,8 +410,11 @@ def gen_locks(repo):
             "  | acq | rel | call (f : String)",
             "deriving DecidableEq, Repr"]
     try:
-        api = strip_comments(open(os.path.join(repo, "src/api.rs")).read())
-        hdr = strip_comments(open(os.path.join(repo, "src/encrypted_header.rs")).read())
+        srcs = sources(repo)
+        api = "\n".join(t for _, t in files_with(srcs, r"impl\s+Covercrypt\b|for\s+Covercrypt\b"))
+        hdr = "\n".join(t for _, t in files_with(srcs, r"impl\s+EncryptedHeader\b"))
+        if api == hdr:
+            raise Unavailable("the API object and the header live in the same file")
         fns = functions(api)
         # methods that hand out the guard of the generator (`rng()` and private helpers like it)
         aliases = [n for n, sig, body in fns if "MutexGuard" in sig and re.search(r"self\s*\.\s*rng\s*\.\s*lock\s*\(", body)]
